@@ -1,5 +1,6 @@
 import HcipyVerif.Lemmas.Coronagraph
 import HcipyVerif.Lemmas.CoronagraphMat
+import HcipyVerif.Lemmas.CoronagraphMS
 import Mathlib.Algebra.Order.Field.Rat
 import Mathlib.Algebra.Order.Floor.Ring
 import Mathlib.Data.Rat.Floor
@@ -487,6 +488,82 @@ example : let p : MSParams := ⟨32, 32, 1/32, 1/32, 1024, 4, 32⟩
   decide +kernel
 
 end MultiScale
+
+/-! ## multi-scale coronagraphs: the algebra of the construction (round 4)
+
+`msMasks` / `msForward` model the constructor's mask recursion (`focal_mask *= 1 - w`,
+`focal_mask -= resample(focal_masks[j])`) and `forward` (`Σ_i prop_i.backward(mask_i · prop_i(E))`,
+Lyot stop) for arbitrary linear stand-ins of the propagators and resamplers; the driver op
+`msalg` runs them and the harness compares masks level by level and the output with the real
+`MultiScaleCoronagraph` / `VortexCoronagraph` / `FQPMCoronagraph` running on the same stand-ins. -/
+section MultiScaleAlgebra
+variable {K : Type} {d n : ℕ}
+
+/-- **Telescoping — the design invariant behind the window and padding arithmetic.**  When every
+level samples the same mask `m` on one focal plane, sees the samples of its support `S_i` through
+the restrictions of one pair of operators `F`, `B`, resampling between levels is exact, and the
+windows are nested in the supports (`nestedOK`: the window of level `i` vanishes outside `S_i` and
+outside `S_{i+1}`; `S_0` is everything) — then the masks the constructor's recursion arrives at
+are `m (w_{i-1} − w_i)` and the sum over the levels collapses:
+`Σ_i B_i (M_i · F_i E) = B (m · F E)`, whatever the windows, for any number of levels.
+`level_extent` / `level_geometry` are what makes the real level grids satisfy the hypotheses
+(finer level = exactly the window of the coarser one, window centred on the origin sample). -/
+theorem multiscale_telescopes [CommRing K] [BEq K] [LawfulBEq K]
+    (m : Vector K d) (F : Vector (Vector K n) d) (B : Vector (Vector K d) n)
+    (sps : List (Vector Bool d × Vector K d)) (hne : sps ≠ [])
+    (hok : nestedOK (onesVec K d) sps = true) (stop : Option (Vector K n)) (E : Vector K n) :
+    msForward (exactLevels m F B sps) stop E =
+      match stop with
+      | none => idealForward m F B E
+      | some s => Vector.ofFn fun i => (idealForward m F B E)[i] * s[i] := by
+  have h : msSum (exactLevels m F B sps) (msMasks (exactLevels m F B sps)) E = idealForward m F B E :=
+    toFn_injective (toFn_msForward_exact m F B sps hne hok E)
+  unfold msForward
+  simp only [h]
+  cases stop <;> rfl
+
+/-- The masks themselves: on the exact design the recursion yields `m (w_{i-1} − w_i)` (with
+`w_{-1} = 1`) and `m w_{L-2}` on the last level. -/
+theorem multiscale_masks [CommRing K] (m : Vector K d) (F : Vector (Vector K n) d) (B : Vector (Vector K d) n)
+    (sps : List (Vector Bool d × Vector K d)) :
+    (msMasks (exactLevels m F B sps)).map toFn = expMasks (toFn m) (fun _ => 1) sps := by
+  have := msMasksAux_exact m F B sps [] (fun _ => 1) (by funext p; simp)
+  simpa [msMasks, exactLevels] using this
+
+/-- Hypotheses satisfiable, and the identity evaluated: three levels on a six-sample plane with
+supports `6 ⊇ 4 ⊇ 2`, windows supported in the next level, arbitrary `F`, `B`, mask. -/
+example : let m : Vector ℚ 6 := #v[2, -1, 3, 5, -2, 7]
+    let F : Vector (Vector ℚ 2) 6 := #v[#v[1, 2], #v[0, 1], #v[3, -1], #v[1, 1], #v[2, 0], #v[-1, 4]]
+    let B : Vector (Vector ℚ 6) 2 := #v[#v[1, 0, 2, -1, 3, 1], #v[0, 1, 1, 2, -2, 5]]
+    let sps : List (Vector Bool 6 × Vector ℚ 6) :=
+      [(#v[true, true, true, true, true, true], #v[0, 1/2, 1, 1, 1/2, 0]),
+       (#v[false, true, true, true, true, false], #v[0, 0, 1/3, 1, 0, 0]),
+       (#v[false, false, true, true, false, false], #v[0, 0, 0, 0, 0, 0])]
+    nestedOK (onesVec ℚ 6) sps = true ∧
+      msForward (exactLevels m F B sps) none #v[1, 3] = idealForward m F B #v[1, 3] := by
+  decide +kernel
+
+/-- **Achromaticity after rescaling**: `forward` calls its propagators at wavelength 1 whatever
+the wavelength of the input, so the output field does not depend on the wavelength, and the output
+carries the input's wavelength.  (Tied by op `msalg`: the stand-in propagators record the
+wavelength they are called with.) -/
+theorem multiscale_wavelength_free [OfNat K 0] [OfNat K 1] [Add K] [Sub K] [Mul K] [Div K] [Pow K ℕ]
+    (lsAt : K → List (MSLevel K d n)) (stop : Option (Vector K n)) (E : Vector K n) (wl wl' : K) :
+    (msForwardWf lsAt stop ⟨E, wl⟩).E = (msForwardWf lsAt stop ⟨E, wl'⟩).E ∧
+    (msForwardWf lsAt stop ⟨E, wl⟩).E = msForward (lsAt 1) stop E ∧
+    (msForwardWf lsAt stop ⟨E, wl⟩).wavelength = wl := ⟨rfl, rfl, rfl⟩
+
+/-- Without the rescaling the output does depend on the wavelength (so the previous theorem is a
+statement about the bookkeeping, not an artefact of the model): one level, one sample, a
+propagator that scales with the wavelength. -/
+theorem multiscale_wavelength_bad_counterexample :
+    let lsAt : ℚ → List (MSLevel ℚ 1 1) := fun wl =>
+      [{ raw := #v[1], win := #v[0], R := [], F := #v[#v[wl]], B := #v[#v[1]] }]
+    (msForwardWfBad lsAt none ⟨#v[1], 1⟩).E ≠ (msForwardWfBad lsAt none ⟨#v[1], 2⟩).E ∧
+    (msForwardWf lsAt none ⟨#v[1], 1⟩).E = (msForwardWf lsAt none ⟨#v[1], 2⟩).E := by
+  decide +kernel
+
+end MultiScaleAlgebra
 
 /-! ## the perfect coronagraph for an arbitrary orthonormal family (real or complex)
 
